@@ -347,8 +347,29 @@ def refactor(rng, S):
     """returns (kind, cddl text of the refactored schema) or None"""
     rules = list(S.rules)
     kind = rng.choice(["name-intro", "inline", "parens", "rename", "add-rules", "reorder", "incr-choice", "socket", "generic", "generic-ctl", "generic-group",
-                       "incr-maps", "generic-map-group"])
+                       "incr-maps", "generic-map-group", "group-unparen"])
     PRIMS = ["int", "tstr", "bool", "uint", "nil", "float"]
+    if kind == "group-unparen":
+        # `g = (* int)` against `g = * int`: a group rule is a group ENTRY; an occurrence written at the top of the definition
+        # belongs to the rule (seeded C08-6)
+        cands = [i for i, (n_, k_, b_) in enumerate(rules) if k_ == "group" and (b_[0] == "ent" or (b_[0] == "occ" and b_[3][0] == "ent"))]
+        if not cands:
+            # make one: the root becomes an array that refers to a new one-entry group rule
+            occ = rng.choice([(0, None), (1, None), (0, 1), (2, 3), None])
+            e = ("ent", None, False, ("ref", rng.choice(PRIMS[:4])))
+            gb = e if occ is None else ("occ", occ[0], occ[1], e)
+            first = ("ent", None, False, ("ref", rng.choice(PRIMS[:4])))
+            S2 = Schema([("r0", "type", ("arr", ("seq", first, ("gref", "tail")))), ("tail", "group", gb)])
+            t1 = S2.cddl()
+            t2 = t1.replace("tail = (%s)" % ast.grp_cddl(gb, False), "tail = %s" % ast.grp_cddl(gb, False))
+            return kind, (t1, t2, S2)
+        i = rng.choice(cands)
+        n_, k_, b_ = rules[i]
+        t1 = S.cddl()
+        t2 = t1.replace("%s = (%s)" % (n_, ast.grp_cddl(b_, False)), "%s = %s" % (n_, ast.grp_cddl(b_, False)))
+        if t1 == t2:
+            return None
+        return kind, (t1, t2, S)
     if kind == "incr-maps":
         # a choice of MAPS that share a key, spelled inline / as a base rule plus '/=' increments / through a $socket (seeded C08-3:
         # what a failed earlier arm recorded must not be visible to a later arm)
@@ -524,7 +545,8 @@ def run_c08(prop, prop_file, tier, seed):
     n = (3000 if tier == "quick" else 30000) * (2 if not proved else 1)
     items, meta = [], []
     for i in range(n):
-        o = gen.Opts(cbor=False, clean_maps=True, depth=rng.choice([1, 2, 2]))
+        cb = rng.random() < 0.4
+        o = gen.Opts(cbor=cb, clean_maps=True, depth=rng.choice([1, 2, 2]))
         S = gen.SchemaGen(rng, o).schema()
         r = refactor(rng, S)
         if r is None:
@@ -534,9 +556,9 @@ def run_c08(prop, prop_file, tier, seed):
         if kind == "generic-ctl":
             text1, text2, S = text2
             dd = [("int", x) for x in (0, 3, 5, 6, 7, 10, 15, 20, 25, -1)] + [("txt", "a"), ("txt", "ab"), ("flt", 22)]
-        elif kind in ("incr-maps", "generic-map-group"):
+        elif kind in ("incr-maps", "generic-map-group", "group-unparen"):
             text1, text2, S = text2
-            dd = docs_for(rng, S, False, 6)
+            dd = docs_for(rng, S, cb if kind == "group-unparen" else False, 6)
         elif kind == "generic-group":
             text1, text2, S = text2
             dd = docs_for(rng, S, False, 4)
@@ -545,11 +567,13 @@ def run_c08(prop, prop_file, tier, seed):
                 dd.append(("arr", [l[0]] * len(l)))          # every element of the first instantiation's kind
                 dd.append(("arr", [l[-1]] * len(l)))
         else:
-            dd = docs_for(rng, S, False, 3)
+            dd = docs_for(rng, S, cb, 3)
+        if kind in ("generic-ctl", "generic-group", "incr-maps", "generic-map-group", "group-unparen"):
+            cb = False if kind != "group-unparen" else cb
         for d in dd:
             items.append((text1, d))
             items.append((text2, d))
-            meta.append((kind, S, text2, d))
+            meta.append((kind, S, text2, d, cb))
     jv, cv = both_modes(drv, items, rng)
     hist, known_hits, nviol, evals, distinct = {}, {}, 0, 0, set()
     kfs = {"json": {k["id"]: k for k in common.known_findings("C01")}, "cbor": {k["id"]: k for k in common.known_findings("C02")}}
@@ -564,11 +588,13 @@ def run_c08(prop, prop_file, tier, seed):
             res.known(kf)
         else:
             res.notes.append("finding %s apparently repaired" % kf["id"])
-    for mi, (kind, S, text2, d) in enumerate(meta):
+    for mi, (kind, S, text2, d, cb) in enumerate(meta):
         for mode, outs in (("json", jv), ("cbor", cv)):
             a, b = outs[2 * mi], outs[2 * mi + 1]
             if a is None or b is None:
                 continue
+            if mode == "json" and cb:
+                continue        # the schema uses CBOR-only constructs
             evals += 1
             hist["%s/%s" % (kind, mode)] = hist.get("%s/%s" % (kind, mode), 0) + 1
             distinct.add((S.cddl(), text2, ast.val_sexp(d)))
@@ -703,6 +729,70 @@ def permute_members(rng, t):
 ORDER_ZONES = {"kf-c01-map-member-shape", "kf-c02-map-member-shape", "kf-c01-arrow-key-acts-as-cut"}
 
 
+def c10_order_family(rng, n):
+    """text-level groups for member-order independence outside the model fragment: members whose keys are pairwise disjoint, one
+    of them keyed by a group-to-choice enumeration `&(x: "a", y: "b") => T` (seeded C10-6) or - CBOR - by an array / a map
+    (seeded C10-5); every order of the members must give the same verdict. Returns [(texts of all orders, doc, cbor_only)]."""
+    import itertools
+    out = []
+    VALS = [("int", 1), ("txt", "v"), ("bool", True), ("null",)]
+    for i in range(n):
+        kind = rng.choice(["enum-key", "enum-key", "array-key", "map-key"])
+        ty = lambda: rng.choice(["int", "tstr", "bool"])
+        members = []                # (text, is_composite_key, [key values])
+        keyvals = []                # (key value, declared type) of the members a document may use
+        lit = rng.sample(["s", "t", "u"], rng.choice([1, 2]))
+        for k in lit:
+            t = ty()
+            opt = rng.random() < 0.3
+            members.append(("%s\"%s\" => %s" % ("? " if opt else "", k, t), False, [("txt", k)]))
+            keyvals.append((("txt", k), t, opt))
+        cbor_only = kind != "enum-key"
+        if kind == "enum-key":
+            named = rng.random() < 0.4
+            t = ty()
+            occ = rng.choice(["", "? ", "* "])
+            members.append(("%s%s => %s" % (occ, "&keys" if named else "&(x: \"a\", y: \"b\")", t), False, [("txt", "a"), ("txt", "b")]))
+            extra = "keys = (x: \"a\", y: \"b\")\n" if named else ""
+            special = [(("txt", "a"), t), (("txt", "b"), t)]
+        elif kind == "array-key":
+            t = ty()
+            members.append(("? [1, 2] => %s" % t, True, [("arr", [("int", 1), ("int", 2)])]))       # optional only: see the finding
+            extra = ""
+            special = [(("arr", [("int", 1), ("int", 2)]), t)]
+        else:
+            t = ty()
+            members.append(("? {\"k\" => 1} => %s" % t, True, [("map", [(("txt", "k"), ("int", 1))])]))
+            extra = ""
+            special = [(("map", [(("txt", "k"), ("int", 1))]), t)]
+        orders = list(itertools.permutations(members))
+        texts = ["m = { %s }\n%s" % (", ".join(m[0] for m in p), extra) for p in orders]
+        good = {"int": ("int", 1), "tstr": ("txt", "v"), "bool": ("bool", True)}
+        for j in range(6):
+            pairs = []
+            for kv, t, opt in keyvals:
+                r = rng.random()
+                if r < 0.6:
+                    pairs.append((kv, good[t]))
+                elif r < 0.85:
+                    pairs.append((kv, rng.choice(VALS)))
+            for kv, t in special:
+                r = rng.random()
+                if r < 0.35:
+                    pairs.append((kv, good[t]))
+                elif r < 0.5:
+                    pairs.append((kv, rng.choice(VALS)))
+            if len({repr(a) for a, _ in pairs}) < len(pairs):
+                continue
+            rng.shuffle(pairs)
+            # kf-c10-composite-key-before-present-key: an order is affected when a member keyed by an array or a map type
+            # stands before a member one of whose keys is present in the document
+            dockeys = [repr(a) for a, _ in pairs]
+            affected = [any(p[i][1] and any(repr(kv) in dockeys for kv in p[j][2]) for i in range(len(p)) for j in range(i + 1, len(p))) for p in orders]
+            out.append((texts, ("map", pairs), cbor_only, affected))
+    return out
+
+
 def run_c10(prop, prop_file, tier, seed):
     res = Result(prop, tier, seed)
     proved = common.prove(res, prop, prop_file, EXTRACT)
@@ -778,6 +868,39 @@ def run_c10(prop, prop_file, tier, seed):
                             res.violation("%s validator: verdict changes when %s: %s -> %s\n%sdocument %s\nvariant %s" % (mode, what, a[:80], x[:80], S.cddl(), ast.val_sexp(d), other),
                                           {"mode": mode, "what": what, "schema": S.cddl(), "schema2": S2.cddl(), "doc": ast.val_sexp(d), "doc2": ast.val_sexp(d2),
                                            "doc_cbor": ast.val_cbor(d).hex(), "doc2_cbor": ast.val_cbor(d2).hex(), "impl": [a, x]})
+    # member-order independence outside the model fragment (enumeration keys, array and map keys)
+    fam = c10_order_family(rng, 150 if tier == "quick" else 3000)
+    fitems = [(t, d) for texts, d, _, _ in fam for t in texts]
+    fj, fc = both_modes(drv, fitems, rng)
+    pos = 0
+    kfc = {k["id"]: k for k in common.known_findings(prop)}
+    for texts, d, cbor_only, affected in fam:
+        k = len(texts)
+        for mode, outs in (("json", fj), ("cbor", fc)):
+            if mode == "json" and cbor_only:
+                continue
+            vs = [outs[pos + i] for i in range(k)]
+            if any(x is None for x in vs) or any(V(x) == "E schema" for x in vs):
+                continue
+            evals += k
+            hist["order-family/" + mode] = hist.get("order-family/" + mode, 0) + k
+            if len({V(x) for x in vs}) > 1 and "kf-c10-composite-key-before-present-key" in kfc and any(affected):
+                # compare the unaffected orders among themselves; a difference that involves an affected order is the known finding
+                clean = [i for i in range(k) if not affected[i]]
+                if len({V(vs[i]) for i in clean}) <= 1:
+                    known_hits["kf-c10-composite-key-before-present-key"] = known_hits.get("kf-c10-composite-key-before-present-key", 0) + 1
+                    res.known(kfc["kf-c10-composite-key-before-present-key"])
+                    continue
+                texts, vs = [texts[i] for i in clean], [vs[i] for i in clean]
+            if len({V(x) for x in vs}) > 1:
+                nviol += 1
+                if nviol <= 20:
+                    i0 = next(i for i in range(len(vs)) if V(vs[i]) != V(vs[0]))
+                    res.violation("%s validator: verdict depends on the order of members with disjoint keys: %s gives %s, %s gives %s on %s" % (
+                        mode, texts[0].strip(), vs[0][:60], texts[i0].strip(), vs[i0][:60], ast.val_sexp(d)),
+                        {"mode": mode, "what": "member order (family)", "schemas": [texts[0], texts[i0]], "doc": ast.val_sexp(d),
+                         "doc_json": ast.val_json(d) if ast.is_json_value(d) else None, "doc_cbor": ast.val_cbor(d).hex(), "impl": [vs[0], vs[i0]]})
+        pos += k
     kf10 = {k["id"]: k for k in common.known_findings(prop)}
     for (S, d), a, a2 in zip(dup_pairs, dup_impl, dup_impl_rev):
         evals += 1
